@@ -1457,6 +1457,9 @@ func WithHelpers(fn *ssa.Function, maxBlocks int) []*ssa.Function {
 			if !ok {
 				return
 			}
+			if _, isGo := in.(*ssa.Go); isGo {
+				return // a new goroutine is not part of this function's activity
+			}
 			cal := c.Common().StaticCallee()
 			if cal == nil || seen[cal] || cal.Pkg != fn.Pkg || cal.Blocks == nil || len(cal.Blocks) > maxBlocks || cal.Object() == nil || cal.Object().Exported() {
 				return
